@@ -47,8 +47,10 @@ def interpose(coro: Coroutine[Any, Any, Any], on_yield: Callable[[int, Any], Non
 class Injector:
     """Cancel the victim at suspension point `target` (None = only count)."""
 
-    def __init__(self, target: int | None, after_idles: int = 0, after_turns: int = 0) -> None:
+    def __init__(self, target: int | None, after_idles: int = 0, after_turns: int = 0, again_after_turns: int = 0) -> None:
         self.target = target
+        self.again_after_turns = again_after_turns  # n>0: a second request follows n loop iterations after the first (if the victim is still alive)
+        self.fired_again = False
         self.after_turns = after_turns  # m>0: the request is made m loop iterations after the moment selected by `after_idles` (while still suspended there)
         self.after_idles = after_idles  # 0: cancel the moment the victim suspends at `target`; j>0: at the j-th loop idle while it is still suspended there
         self.at_point: int | None = None
@@ -91,6 +93,18 @@ class Injector:
             self.where = self.phase()
         assert self.task is not None
         self.task.cancel()
+        if self.again_after_turns > 0:
+            self._again(self.again_after_turns)
+
+    def _again(self, left: int) -> None:
+        assert self.task is not None
+        if self.task.done():
+            return
+        if left <= 0:
+            self.fired_again = True
+            self.task.cancel()
+            return
+        self.task.get_loop().call_soon(self._again, left - 1)
 
     def on_idle(self) -> bool:
         """called by the harness' idle hook before it releases anything; True if the cancellation was requested now"""
